@@ -314,7 +314,67 @@ func c15BufferIndependence(c *mon.Ctx, s string) {
 	c.Count("buffer_independence_checked")
 }
 
+// c15LongChain: a flat chain is in the language whatever its length - n
+// operands joined by one connective (or n `not`s) derive from the rules for
+// Or / And / Not by n applications, and the tree is the right-leaning chain of
+// n leaves. Sizes beyond any plausible nesting / depth guard.
+func c15LongChain(c *mon.Ctx, k int) {
+	n := []int{100100, 100100, 131073, 70000}[k]
+	var text string
+	switch k {
+	case 0:
+		text = "a == 1" + strings.Repeat(" or b != 2", n-1)
+	case 1:
+		text = strings.Repeat("not ", n) + "a == 1"
+	case 2:
+		text = "a == 1" + strings.Repeat(" and a == 1", n-1)
+	default:
+		text = "a == 1" + strings.Repeat(" or not b in c and d is empty", n-1)
+	}
+	c.Risk(fmt.Sprintf("unlimited-parse long flat chain %d (must survive)", k))
+	val, err, pan, _ := parsePublic(text)
+	c.Evals(1)
+	if pan != "" || err != nil {
+		c.Violation("C15 long-flat-chain-rejected", "a flat chain of operands (derivable from the grammar by repeating one rule) was rejected", map[string]any{"operands": n, "shape": clip(text, 60), "error": clip(fmt.Sprint(err)+pan, 300)})
+		return
+	}
+	// walk the right spine without recursion
+	leaves, node := 0, val
+	for node != nil {
+		switch x := node.(type) {
+		case *grammar.BinaryExpression:
+			leaves++
+			node = x.Right
+		case *grammar.UnaryExpression:
+			leaves++
+			node = x.Operand
+		default:
+			leaves++
+			node = nil
+		}
+	}
+	want := n
+	if k == 1 {
+		want = n%2 + 1 // `not not e` is `e`: the parser folds pairs
+	}
+	if (k == 0 || k == 2) && leaves != want || k == 1 && leaves > 2 {
+		c.Violation("C15 long-flat-chain-tree", "the tree of a long flat chain is not the right-leaning chain of its operands", map[string]any{"operands": n, "spine_length": leaves})
+		return
+	}
+	if ev, cerr, cpan, _ := createEval(text); cpan != "" || cerr != nil || ev == nil {
+		c.Violation("C15 long-flat-chain-rejected", "CreateEvaluator rejected a flat chain that grammar.Parse accepts", map[string]any{"operands": n, "error": clip(fmt.Sprint(cerr)+cpan, 300)})
+		return
+	}
+	c.Count("long_flat_chains")
+}
+
+const c15NChains = 4
+
 func c15Run(c *mon.Ctx, idx int) {
+	if plan := c15GetPlan(c.Tier); idx >= plan.nSeq+plan.nRnd {
+		c15LongChain(c, idx-plan.nSeq-plan.nRnd)
+		return
+	}
 	if idx%97 == 0 {
 		c15Disturb(c, idx)
 	}
@@ -366,7 +426,7 @@ func c15Run(c *mon.Ctx, idx int) {
 
 func init() {
 	req := func(tier string) []string {
-		l := []string{"accepted", "rejected", "option_bearing_calls_interleaved", "buffer_independence_checked", "trees_compared", "token_sequences", "derivations", "mutants"}
+		l := []string{"accepted", "rejected", "option_bearing_calls_interleaved", "buffer_independence_checked", "trees_compared", "token_sequences", "derivations", "mutants", "long_flat_chains"}
 		for _, a := range refparse.AllAlts {
 			l = append(l, "alt:"+a)
 		}
@@ -379,8 +439,9 @@ func init() {
 			"the reference recogniser (internal/refparse) is a faithful reading of grammar.peg as an ordered-choice PEG; it was written by hand from the grammar and shares no code with the generated parser",
 			"inputs whose parse exceeds 2^16 parser steps are skipped and counted (budget_exhausted)",
 		},
-		NumCases: func(tier string) int { p := c15GetPlan(tier); return p.nSeq + p.nRnd },
+		NumCases: func(tier string) int { p := c15GetPlan(tier); return p.nSeq + p.nRnd + c15NChains },
 		Run:      c15Run,
+		Heavy:    func(tier string, idx int) bool { p := c15GetPlan(tier); return idx >= p.nSeq+p.nRnd },
 		Required: req,
 		Post: func(a *mon.Agg) {
 			p := c15GetPlan(a.Tier)
